@@ -54,18 +54,25 @@ WHITELIST = frozenset([
 
 def split_parts(arg):
     # Break in pieces at undoubled semicolons and
-    # change double semicolons to singles:
-    i = 0
-    while i < len(arg):
-        m = ENTITY_RE.search(arg[i:])
-        if m is None:
-            break
-        arg = arg[:i + m.end()] + ';' + arg[i + m.end():]
-        i += m.end()
+    # change double semicolons to singles.
+    #
+    # The pieces are sliced from the argument (rather than cut out of a
+    # rewritten copy) so that tokens keep their true source position.
+    protected = {m.end() - 1 for m in ENTITY_RE.finditer(arg)}
+    parts = []
+    start = i = 0
+    length = len(arg)
+    while i < length:
+        if arg[i] == ';' and i not in protected:
+            if i + 1 < length and arg[i + 1] == ';':
+                i += 2
+                continue
+            parts.append(arg[start:i])
+            start = i + 1
+        i += 1
+    parts.append(arg[start:])
 
-    arg = arg.replace(";;", "\0")
-    parts = arg.split(';')
-    parts = [p.replace("\0", ";") for p in parts]
+    parts = [p.replace(";;", ";") for p in parts]
     if len(parts) > 1 and not parts[-1].strip():
         del parts[-1]  # It ended in a semicolon
 
